@@ -50,7 +50,7 @@ func InitGlobals() {
 		functions.GetTransactionByBytes = transaction.GetTransactionByBytes
 		functions.CreateTransaction = transaction.CreateTransaction
 		functions.GetTransactionParameters = transaction.GetTransactionparameters
-		config.DefaultParams = *config.GetDefaultParams()
+		config.DefaultParams = *config.GetDefaultParams().RegNet().InstantBlock().Sterilize()
 		logDir, _ := os.MkdirTemp("", "verif-log-")
 		level := uint8(5) // fatal only
 		if v := os.Getenv("VERIF_LOGLEVEL"); v != "" {
@@ -115,9 +115,9 @@ func New(opt Options) (*Node, error) {
 	if err != nil {
 		return nil, err
 	}
-	p := config.GetDefaultParams()
-	config.DefaultParams = *p
-	params := config.DefaultParams.RegNet().InstantBlock().Sterilize()
+	// every node gets its own parameter object; the package-level
+	// config.DefaultParams (read by a few helpers) is set once in InitGlobals
+	params := config.GetDefaultParams().RegNet().InstantBlock().Sterilize()
 	params.DataDir = dir
 	params.CheckRewardHeight = 0
 	params.PowConfiguration.CoinbaseMaturity = 1
